@@ -256,4 +256,33 @@ PROPS = {
             "operators and attribute settings come from the generator's catalogue (gen/onnxgen/ops.py)",
         ],
     ),
+    "C05": dict(
+        gen=dict(script="modelgen.py", args=["--family", "singleop,dag,cflow"]),
+        steps=[
+            native("loadfuzz", ["c05"], shards=8, extra={Q: {"n": 16000}, T: {"n": 2400000}}, timeout={Q: 1200, T: 3 * 3600}),
+            asan("loadfuzz", ["c05"], shards=8, extra={Q: {"n": 800}, T: {"n": 100000}}, timeout={Q: 1500, T: 4 * 3600}),
+        ],
+        floor={Q: 2000, T: 300000},
+        parallel_steps=2,
+        assumptions=[
+            "allocation requests above 1 GiB + 64 KiB made while a load call is in flight are refused by the harness allocator (deterministic abort); such an abort counts only if the request exceeds 16*input_len + 1 MiB and was not made by an operator that constant propagation evaluates (docs/security.md: operator memory use is not bounded)",
+            "a load killed by the per-case alarm (15 s native / 40 s ASan) counts only when it repeats alone with 4x the alarm and made no allocation request above that bound (slow loads that work on gigabytes are resource use, not judged)",
+            "panics, errors, aborts and time-outs while RUNNING a loaded model are counted, not judged; a crash there is reported only after a malformed constant was seen",
+            "RTEN_NUM_THREADS=1 in the engine; file entry points use scratch files under /verif/tmp/c05-<pid>",
+        ],
+    ),
+    "C21": dict(
+        steps=[
+            native("extcheck", ["c21"], shards=8, timeout={Q: 900, T: 3 * 3600}),
+            asan("extcheck", ["c21"], shards=4, tiers=(T,), extra={T: {"n": 20000}}, timeout={T: 3 * 3600}),
+        ],
+        floor={Q: 2000, T: 50000},
+        assumptions=[
+            "the harness's location predicate is a string-level reading of 'single plain file name with a recognised data extension' under Unix path rules: recognised = data, onnx_data, optionally followed by [_.-]digits; extensions that merely start with 'data'/'onnx_data' (database, DATA), '.data', names containing NUL and non-UTF-8 strings are undecided by the statement and only counted",
+            "Windows-style strings (backslashes, drive prefixes) are ordinary file-name characters on this host; accepting one that names a file directly inside the model directory is counted, not flagged; Windows path semantics are not exercised",
+            "a symlink with an acceptable name directly inside the model directory is 'a file directly inside the directory' whatever its target (statement and docs/security.md are silent on links); the system-call monitor resolves links only in the directory part of an opened path",
+            "for the in-memory loader the 'file' is the buffer registered under exactly the location string; the harness registers a buffer under every location it tests so that a missing check is exposed",
+            "refusals are never violations; /proc, /sys, /dev files opened by the runtime (cpu/cgroup discovery) are excused only when no location of the case names them",
+        ],
+    ),
 }
